@@ -142,6 +142,14 @@ def models(mb: ModelBuilder) -> dict[str, AObj]:
     mb.relation(r, [mb.feature("m")], 1, 1)
     mb.relation(r, [mb.feature("g1"), mb.feature("g2")], 1, 1)
     ms["mandatory-beside-group"] = mb.model(r, [])
+    # groups that select all their members ([n..n] over n children) are groups: their members are grouped, not mandatory
+    r = mb.feature("R")
+    mb.relation(r, [mb.feature("and1"), mb.feature("and2")], 2, 2)
+    hh = mb.feature("H")
+    mb.relation(r, [hh], 1, 1)
+    mb.relation(hh, [mb.feature("t1"), mb.feature("t2"), mb.feature("t3")], 3, 3)
+    mb.relation(hh, [mb.feature("u1"), mb.feature("u2"), mb.feature("u3")], 1, -1)
+    ms["select-all-groups"] = mb.model(r, [])
     # constraints that are equal under Constraint.__eq__ (same text up to case, or stated twice) are
     # still separate constraints of the model: each counts for the features it names
     app = mb.feature("App")
